@@ -97,8 +97,23 @@ fn basis_event(key: &str, k: usize, t: &Vec<f64>, xs: &[f64]) -> Value {
             }
         }
     }
+    // the Python-facing FREE functions `bsplev_single` / `bspldnev_single`: every basis index (the last one included), every
+    // derivative order, a third of the points - each must be the core function's own value, or an error where that panics
+    let mut pyfree = vec![];
+    for i in 0..n {
+        for (q, x) in xs.iter().enumerate().filter(|(q, _)| q % 3 == 1 || *q + 1 == xs.len()) {
+            for m in 0..=(k + 1) {
+                let r = if m == 0 && q % 2 == 0 { guard(|| spy::py_bsplev_single(*x, i, k, t.clone())) } else { guard(|| spy::py_bspldnev_single(*x, i, k, t.clone(), m)) };
+                match r {
+                    Outcome::Ok(Ok(v)) => pyfree.push(json!({"i": i, "m": m, "q": q + 1, "o": "ok", "v": fj(v)})),
+                    Outcome::Ok(Err(c)) => pyfree.push(json!({"i": i, "m": m, "q": q + 1, "o": c, "v": fj(0.0)})),
+                    Outcome::Panic(_) => pyfree.push(json!({"i": i, "m": m, "q": q + 1, "o": "panic", "v": fj(0.0)})),
+                }
+            }
+        }
+    }
     json!({"key": key, "op": "basis", "k": k, "t": fvec(t), "xs": fvec(xs), "vals": vals, "m0_via_deriv": via_d, "dvals": dvals, "vec_rev": vec_rev,
-           "sites": fvec(&sites), "matrix": matrix, "pyvals": pyvals, "o": o})
+           "sites": fvec(&sites), "matrix": matrix, "pyvals": pyvals, "pyfree": pyfree, "o": o})
 }
 
 /// TLC-generated knot vectors (MC_BSpline.CaseSeq): k, t (integers as doubles), nx quarter points
